@@ -288,7 +288,7 @@ func main() {
 		Level: "exploration",
 		// many short-lived allocations inside the code under test: keep the
 		// per-worker garbage collector from fighting over the cores
-		WorkerEnv:        []string{"GOMAXPROCS=2", "GOGC=400"},
+		WorkerEnv:        []string{"GOMAXPROCS=1", "GOGC=200"},
 		ThoroughDeadline: 25 * time.Minute,
 		Rule: "every sequence of L points (L = 2..N, repeats allowed) over the GxG integer grid x every tolerance of {0,0.5,1,1.5,3}; a case fixes L and the first min(L,P) points and enumerates all remaining points and all tolerances inside. " +
 			"Per (sequence,tolerance): Simplify == repository recursive reference (element-wise); reference is one of the outcomes of an independent exact-arithmetic recursive Douglas-Peucker that breaks exact distance ties both ways (singleton when there is no exact tie); first/last kept; result is a subsequence of the input. " +
@@ -337,7 +337,6 @@ func main() {
 				var removed [5]int64
 				var tiesNone, tiesSome, tbEq, tbDiff, tieFirst, tieRound int64
 				r.Nontrivial = L >= 3
-				r.Key = fmt.Sprintf("L%d:%v", L, c.prefix)
 				last := uint(1) << uint(L-1)
 				for {
 					for i := range idx {
